@@ -25,6 +25,10 @@ for d in sorted(glob.glob(f"{ROOT}/harmless/*.diff")):
     if only and name not in only:
         continue
     subprocess.run(["git", "-C", REPO, "checkout", "--", "."], check=True)
+    if REPO != "/repo":
+        # follow /repo: the scratch tree is moved to /repo's current HEAD before every patch, so units and tree never drift apart
+        head = subprocess.run(["git", "-C", "/repo", "rev-parse", "HEAD"], capture_output=True, text=True).stdout.strip()
+        subprocess.run(["git", "-C", REPO, "checkout", "-q", "--detach", head], check=True)
     r = subprocess.run(["git", "-C", REPO, "apply", d], capture_output=True, text=True)
     if r.returncode != 0:
         res[name] = "patch does not apply"
